@@ -40,11 +40,7 @@ impl StreamBox {
     #[verifier::external_body]
     pub fn pythonic_slice(&self, lo: Option<isize>, hi: Option<isize>) -> (r: NRes<Seq>) { unimplemented!() }
 }
-// dictionary keys and storage: opaque here (std HashMap over ObjKey); lookups are uninterpreted
-#[verifier::external_body] #[verifier::accept_recursive_types] pub struct ObjKey { _p: u8 }
-pub uninterp spec fn to_key_spec(o: Obj) -> NRes<ObjKey>;
-#[verifier::external_body]
-pub fn to_key(obj: Obj) -> (r: NRes<ObjKey>) ensures r == to_key_spec(obj) { unimplemented!() }
+// dictionary storage: opaque here (std HashMap over ObjKey); lookups are uninterpreted
 pub uninterp spec fn dict_get_spec(d: DictMap, k: ObjKey) -> Option<Obj>;
 impl DictMap {
     #[verifier::external_body]
